@@ -23,6 +23,7 @@ package main
 import (
 	"fmt"
 	"math/big"
+	"regexp"
 	"sort"
 	"strings"
 
@@ -141,6 +142,9 @@ func checkMinMaxDist2(ctx *Ctx, r *Report, fn *ssa.Function, dim int, key string
 	}
 	minT, _ := iv.Elems[0].(*Term)
 	maxT, _ := iv.Elems[1].(*Term)
+	if minT != nil {
+		minT = liftBitTests(minT)
+	}
 	if minT == nil || maxT == nil {
 		r.undecided("O2", key, fn.Pos(), "interval components not scalar")
 		return
@@ -412,6 +416,11 @@ func checkMinMaxDist2(ctx *Ctx, r *Report, fn *ssa.Function, dim int, key string
 	r.check("O2", key+"|vertices-enumerates-all-corners", fn.Pos(), okV, "corner signatures: "+vdetail)
 }
 
+var (
+	reMadeElem = regexp.MustCompile(`^(make#\d+)\[(.+)\]\.(\w+)$`)
+	reMadeSlot = regexp.MustCompile(`^(make#\d+)\[(?:\+\(1,)?(μ\d+)\)?\]$`)
+)
+
 func checkUnionPrune(ctx *Ctx, r *Report) {
 	fn := ctx.ssaFunc("sdf", "(*UnionSDF2).Evaluate")
 	if fn == nil {
@@ -421,7 +430,7 @@ func checkUnionPrune(ctx *Ctx, r *Report) {
 	key := "sdf.UnionSDF2.Evaluate"
 	mark := len(recOrder)
 	ev := newEval(ctx, "Overlap", "MinMaxDist2")
-	res, _ := ev.evalRoot(fn)
+	res, stF := ev.evalRoot(fn)
 	if len(ev.RootRets) > 1 {
 		// Evaluate has modes (boolean fields of the union decide between them): O3 is about the
 		// mode that prunes, i.e. the one in which Overlap is consulted; O4 covers the mode that
@@ -450,11 +459,11 @@ func checkUnionPrune(ctx *Ctx, r *Report) {
 			for i, f := range fl {
 				ev2.assume[f] = m>>uint(i)&1 == 1
 			}
-			res2, _ := ev2.evalRoot(fn)
+			res2, stF2 := ev2.evalRoot(fn)
 			// the pruning mode: the one that consults Overlap; failing that (the test was edited
 			// away) the mode with every flag off, which is what the constructor leaves behind
 			if len(eventsOf(ev2, ".Overlap")) > 0 || (m == 0 && len(eventsOf(ev, ".Overlap")) == 0) {
-				ev, res, mark = ev2, res2, mark2
+				ev, res, mark, stF = ev2, res2, mark2, stF2
 				if len(eventsOf(ev2, ".Overlap")) > 0 {
 					break
 				}
@@ -502,8 +511,32 @@ func checkUnionPrune(ctx *Ctx, r *Report) {
 		}
 		return s[i+1 : j]
 	}
-	opIdx := idxOf(strings.TrimSuffix(X.S, ".Evaluate"))
-	okArg := strings.HasPrefix(X.S, "s.sdf[") && len(X.Args) == 1 && X.Args[0].Key() == "agg(p.X,p.Y)"
+	operand := strings.TrimSuffix(X.S, ".Evaluate")
+	if m := reMadeElem.FindStringSubmatch(operand); m != nil {
+		// the operands were copied, element by element, into a slice of records made for the
+		// call (`cs[i] = candidate{s.sdf[i], ...}` for every i): read the copy back
+		for o, v := range stF.mem {
+			fm := reMadeSlot.FindStringSubmatch(o.name)
+			if fm == nil || fm[1] != m[1] {
+				continue
+			}
+			rc, isRec := recs[fm[2]]
+			if !isRec || !(rc.Init.Key() == K(-1).Key() || rc.Init.IsZero()) || rc.Step.Key() != Add(K(1), A(fm[2])).Key() {
+				continue
+			}
+			fv, okF := fieldOf(v, m[3])
+			if !okF {
+				continue
+			}
+			src := strings.TrimPrefix(valKey(fv), "sym:")
+			slot := strings.TrimSuffix(strings.TrimPrefix(o.name, fm[1]), "]") // "[" + index of the filling loop
+			if strings.HasPrefix(src, "s.sdf[") && strings.HasSuffix(src, slot+"]") && rc.Init.Key() == K(-1).Key() == strings.HasPrefix(slot, "[+(1,") {
+				operand = "s.sdf[" + m[2] + "]"
+			}
+		}
+	}
+	opIdx := idxOf(operand)
+	okArg := strings.HasPrefix(operand, "s.sdf[") && len(X.Args) == 1 && X.Args[0].Key() == "agg(p.X,p.Y)"
 	r.check("O3", key+"|evaluates-the-indexed-operand-at-p", fn.Pos(), okArg, "x = s.sdf[i].Evaluate(p); found "+shortKey(X.Key(), 120))
 	// eq compares the loop index with the min index
 	var minIdx *Term
@@ -704,4 +737,98 @@ func checkUnionBlend(ctx *Ctx, r *Report) {
 		r.check("O4", "Union2D|blended-union-evaluates-every-operand", fn.Pos(), true, "the union has no SetMin: only the plain minimum is ever folded")
 	}
 	r.floor("O4", 1)
+}
+
+// liftBitTests rewrites tests of a set of flag bits (`where |= inX` ... `switch where { case
+// inX|inY: ...`) into the tests the bits were set under: integer bit operations and comparisons
+// with a constant are pushed below the case distinctions of their operands and folded.
+func liftBitTests(t *Term) *Term {
+	var lift func(x *Term, depth int) *Term
+	isBitOp := func(x *Term) bool {
+		return x.Op == "call" && (x.S == "op|" || x.S == "op&" || x.S == "op^" || x.S == "op<<" || x.S == "op>>")
+	}
+	intConst := func(x *Term) bool { return x.Op == "c" && x.C.IsInt() }
+	lift = func(x *Term, depth int) *Term {
+		if depth > 64 || len(x.Args) == 0 {
+			return x
+		}
+		args := make([]*Term, len(x.Args))
+		changed := false
+		for i, a := range x.Args {
+			args[i] = lift(a, depth+1)
+			if args[i] != a {
+				changed = true
+			}
+		}
+		y := x
+		if changed {
+			y = &Term{Op: x.Op, S: x.S, C: x.C, Args: args}
+			if x.Op == "ite" {
+				y = Ite(args[0], args[1], args[2])
+			}
+		}
+		bitCmp := y.Op == "cmp" && len(y.Args) == 2 && (intConst(y.Args[0]) || intConst(y.Args[1]))
+		if !(isBitOp(y) || bitCmp) {
+			return y
+		}
+		carriesBits := func(a *Term) bool {
+			return a.Op == "ite" || (isBitOp(y) && (a.Op == "cmp" || a.Op == "not"))
+		}
+		for i, a := range y.Args {
+			if !carriesBits(a) {
+				continue
+			}
+			c, ta, tb := a, K(1), K(0)
+			if a.Op == "ite" {
+				c, ta, tb = a.Args[0], a.Args[1], a.Args[2]
+				if bitCmp && !(isBitTree(ta) && isBitTree(tb)) {
+					continue
+				}
+			}
+			with := func(v *Term) *Term {
+				na := append([]*Term{}, y.Args...)
+				na[i] = v
+				return lift(&Term{Op: y.Op, S: y.S, C: y.C, Args: na}, depth+1)
+			}
+			return Ite(c, with(ta), with(tb))
+		}
+		all := true
+		for _, a := range y.Args {
+			if !intConst(a) {
+				all = false
+			}
+		}
+		if all {
+			var out *Term
+			func() {
+				defer func() { recover() }()
+				out = KR(evalT(y, nil))
+			}()
+			if out != nil {
+				return out
+			}
+		}
+		return y
+	}
+	return lift(t, 0)
+}
+
+// isBitTree: a case distinction whose leaves are integer constants (or bit operations on such).
+func isBitTree(t *Term) bool {
+	switch {
+	case t.Op == "c":
+		return t.C.IsInt()
+	case t.Op == "ite":
+		return isBitTree(t.Args[1]) && isBitTree(t.Args[2])
+	case t.Op == "cmp" || t.Op == "not":
+		return true
+	case t.Op == "call" && strings.HasPrefix(t.S, "op"):
+		for _, a := range t.Args {
+			if !isBitTree(a) {
+				return false
+			}
+		}
+		return true
+	}
+	return false
 }
